@@ -45,6 +45,7 @@ type Options struct {
 	MapCost    int // cost of a non-canonical map order (default 1)
 	NoShard    bool
 	OnlyKinds  []int // if set, alternatives are explored only at choice points of these kinds
+	HBRAuxNeutral bool // HBR: accesses to objects outside the focus set do not order executions (declared reduction)
 	HBR        bool  // prune prefixes whose happens-before state was already explored with at least the same budget
 }
 
@@ -57,6 +58,7 @@ type Stats struct {
 	Capped     bool   // stopped by deadline or MaxExecs: NOT exhaustive
 	CapReason  string
 	Bound      int
+	SeenStates int64 // distinct happens-before states expanded
 	Pruned     int64 // subtrees skipped by the happens-before cache
 	Deadlocks  int64
 	Horizons   int64
@@ -205,6 +207,7 @@ func Explore(opt Options, body func(), visit func(*Exec) bool) (Stats, error) {
 		var hb *hbHasher
 		if opt.HBR {
 			hb = newHB(x.Res.Trace)
+			hb.auxNeutral = opt.HBRAuxNeutral
 		}
 		for i := len(it.prefix); i < len(x.Points); i++ {
 			p := x.Points[i]
@@ -263,6 +266,7 @@ func Explore(opt Options, body func(), visit func(*Exec) bool) (Stats, error) {
 		}
 	}
 	st.TraceKinds = int64(len(st.traces))
+	st.SeenStates = int64(len(seen))
 	return st, nil
 }
 
@@ -294,6 +298,7 @@ type hbKey struct {
 }
 
 type hbHasher struct {
+	auxNeutral bool // operations on objects outside the focus set are treated as independent
 	trace []vsched.Step
 	pos   int
 	acc   uint64
@@ -322,8 +327,13 @@ func (h *hbHasher) upTo(n int) uint64 {
 		h.pos++
 		h.tIdx[s.Thread]++
 		ver := 0
-		if s.Obj != 0 {
-			h.oVer[s.Obj]++
+		if s.Obj != 0 && !(h.auxNeutral && s.Aux) {
+			switch s.Op {
+			case "rlock", "len", "r:chan":
+				// reads commute with each other: they see, but do not bump, the object's version
+			default:
+				h.oVer[s.Obj]++
+			}
 			ver = h.oVer[s.Obj]
 		}
 		var opx uint64
